@@ -23,11 +23,60 @@ fn roundtrip<T: serde::Serialize + serde::de::DeserializeOwned>(x: &T) -> T {
     serde_json::from_str(&serde_json::to_string(x).expect("serialize")).expect("deserialize")
 }
 
-/// Runs the history on a real `Registry` with a host span entered first. Returns true iff after
-/// every persist / drop the thread's current span is the host span again.
-pub fn registry_restores(steps: &[Step]) -> bool {
-    let mut ok = true;
-    tracing::subscriber::with_default(Registry::default(), || {
+/// Host spans seen by a layer on the `Registry`: one record per `on_new_span` (the Registry recycles
+/// ids), with the number of `on_close` callbacks it received.
+#[derive(Default)]
+struct CloseLog {
+    records: Vec<u32>,
+    by_id: std::collections::HashMap<u64, usize>,
+}
+
+#[derive(Clone, Default)]
+struct CloseLayer(std::sync::Arc<std::sync::Mutex<CloseLog>>);
+
+impl<S: tracing::Subscriber + for<'a> tracing_subscriber::registry::LookupSpan<'a>> tracing_subscriber::Layer<S> for CloseLayer {
+    fn on_new_span(&self, _: &tracing::span::Attributes<'_>, id: &tracing::span::Id, _: tracing_subscriber::layer::Context<'_, S>) {
+        let mut log = self.0.lock().unwrap();
+        let k = log.records.len();
+        log.records.push(0);
+        log.by_id.insert(id.into_u64(), k);
+    }
+    fn on_close(&self, id: tracing::span::Id, _: tracing_subscriber::layer::Context<'_, S>) {
+        let mut log = self.0.lock().unwrap();
+        if let Some(&k) = log.by_id.get(&id.into_u64()) {
+            log.records[k] += 1;
+        }
+    }
+}
+
+/// What the run under a real `Registry` showed.
+#[derive(Clone, Copy, Debug)]
+pub struct RegistryCheck {
+    /// after every persist / drop the thread's current span is the host span again
+    pub restored: bool,
+    /// after every drop (of a lifetime without lazy re-creations) the Registry has closed, exactly
+    /// once, every host span created for a `NewSpan` of that lifetime; no span was closed twice
+    pub born_closed: bool,
+    /// a drop closed no host span that existed before the lifetime; a persist closed nothing itself
+    pub old_kept: bool,
+    /// number of drops on which the closure check applied
+    pub drops_checked: u64,
+}
+
+impl RegistryCheck {
+    pub fn ok(&self) -> bool {
+        self.restored && self.born_closed && self.old_kept
+    }
+}
+
+/// Runs the history on a real `Registry` (plus a layer counting `on_close`) with a host span
+/// entered first.
+pub fn registry_check(steps: &[Step]) -> RegistryCheck {
+    use tracing_subscriber::layer::SubscriberExt;
+    let mut res = RegistryCheck { restored: true, born_closed: true, old_kept: true, drops_checked: 0 };
+    let layer = CloseLayer::default();
+    let log = layer.0.clone();
+    tracing::subscriber::with_default(Registry::default().with(layer), || {
         let outer = tracing::info_span!("c04_host_outer");
         let _guard = outer.enter();
         let before = tracing::Span::current().id();
@@ -35,37 +84,67 @@ pub fn registry_restores(steps: &[Step]) -> bool {
         let mut md = PersistedMetadata::default();
         let mut saved_spans = PersistedSpans::default();
         let mut receiver = TracingEventReceiver::default();
+        // records created for `NewSpan` events of the current lifetime; was a span re-created lazily?
+        let mut born: Vec<usize> = vec![];
+        let mut lazy = false;
+        let mut lifetime_start = log.lock().unwrap().records.len();
         for step in steps {
             match step {
                 Step::Recv(ev) => {
                     let ev = ev.clone();
-                    let res = panic::catch_unwind(panic::AssertUnwindSafe(|| receiver.try_receive(ev)));
-                    if res.is_err() {
+                    let is_new_span = matches!(ev, TracingEvent::NewSpan { .. });
+                    let n0 = log.lock().unwrap().records.len();
+                    let r = panic::catch_unwind(panic::AssertUnwindSafe(|| receiver.try_receive(ev)));
+                    let n1 = log.lock().unwrap().records.len();
+                    if is_new_span {
+                        born.extend(n0..n1);
+                    } else if n1 > n0 {
+                        lazy = true;
+                    }
+                    if r.is_err() {
                         break;
                     }
                 }
                 Step::Persist { keep } => {
                     md.extend(receiver.persist_metadata());
+                    let closed_before: Vec<u32> = log.lock().unwrap().records.clone();
                     let (spans, local) = receiver.persist();
-                    ok &= tracing::Span::current().id() == before;
+                    res.restored &= tracing::Span::current().id() == before;
+                    res.old_kept &= log.lock().unwrap().records == closed_before;
                     let spans: PersistedSpans = roundtrip(&spans);
                     md = roundtrip(&md);
                     saved_spans = spans.clone();
                     let local = if *keep { local } else { LocalSpans::default() };
                     receiver = TracingEventReceiver::new(md.clone(), spans, local);
+                    born.clear();
+                    lazy = false;
+                    lifetime_start = log.lock().unwrap().records.len();
                 }
                 Step::Drop => {
+                    let closed_before: Vec<u32> = log.lock().unwrap().records.clone();
                     drop(receiver);
-                    ok &= tracing::Span::current().id() == before;
+                    res.restored &= tracing::Span::current().id() == before;
+                    {
+                        let log = log.lock().unwrap();
+                        res.old_kept &= log.records[..lifetime_start] == closed_before[..lifetime_start];
+                        if !lazy {
+                            res.drops_checked += 1;
+                            res.born_closed &= born.iter().all(|&k| log.records[k] == 1);
+                        }
+                        res.born_closed &= log.records.iter().all(|&c| c <= 1);
+                    }
                     receiver = TracingEventReceiver::new(md.clone(), saved_spans.clone(), LocalSpans::default());
+                    born.clear();
+                    lazy = false;
+                    lifetime_start = log.lock().unwrap().records.len();
                 }
             }
         }
         std::mem::forget(receiver);
         // the host's own guard is still the current span when the host leaves
-        ok &= tracing::Span::current().id() == before;
+        res.restored &= tracing::Span::current().id() == before;
     });
-    ok
+    res
 }
 
 // ---------------------------------------------------------------------------------------------
@@ -238,13 +317,21 @@ fn case(sink: &mut Sink, idx: u64, kind: &str, steps: &[Step], nonce: &str) {
     }
     // the recording run first: it must see the call sites of this case registered afresh
     let obs = run_history(steps, nonce);
-    let reg_ok = registry_restores(steps);
-    let nontrivial = bump_stats(sink, steps, &obs, reg_ok);
+    let reg = registry_check(steps);
+    let reg_ok = reg.ok();
+    sink.bump_by("registry:drops_with_closure_check", reg.drops_checked);
+    if !reg.born_closed {
+        sink.bump("registry:born_span_not_closed_once");
+    }
+    if !reg.old_kept {
+        sink.bump("registry:older_span_closed");
+    }
+    let nontrivial = bump_stats(sink, steps, &obs, reg.restored);
     let input = csteps(steps);
     intern_begin();
     let judge = format!("judge_c04 {} {} {}", csteps(steps), cobss(&obs), cbool(reg_ok));
     let judge = intern_wrap(&judge);
-    sink.case(idx, kind, &judge, &input, nontrivial, || serde_json::json!({ "steps": csteps(steps), "registry_restored": reg_ok }));
+    sink.case(idx, kind, &judge, &input, nontrivial, || serde_json::json!({ "steps": csteps(steps), "registry_restored": reg.restored, "registry_born_spans_closed_once_on_drop": reg.born_closed, "registry_older_spans_kept": reg.old_kept }));
 }
 
 /// `pre ; persist k ; seg ; drop ; rest` against `pre ; persist k' ; rest` (rest = seg retried, then more)
